@@ -27,7 +27,7 @@ def int_eval(e: ast.AST, env: Dict[str, int], resolve: Optional[Callable[[ast.AS
         v = leaf(e)
         if v is not None:
             return v
-    if isinstance(e, ast.Constant) and (isinstance(e.value, (int, bool, str)) or e.value is None):
+    if isinstance(e, ast.Constant) and (isinstance(e.value, (int, bool, str, float)) or e.value is None):
         return e.value
     if isinstance(e, ast.Name) and resolve is not None:
         v = resolve(e)
